@@ -2,6 +2,7 @@ import Gallia.Proofs.Lemmas.ScansId
 import Gallia.Proofs.Lemmas.ScansWire
 import Gallia.Proofs.Lemmas.ScansCheck
 import Gallia.Proofs.Lemmas.ScansBound
+import Gallia.Proofs.Lemmas.ScansCompat
 import Gallia.Gen.C10
 /-
   C10 — Service and identifier scans report what the ECU really supports, nothing else.
